@@ -6,11 +6,12 @@ From SV Require Import Base.Corr Wire.Bytes Wire.Prim Wire.Records C04.Model.
 Import ListNotations.
 Open Scope Z_scope.
 
-(* long payloads are printed by the harness as [bgen n seed] (a linear congruential byte stream both sides compute) *)
+(* long payloads are printed by the harness as [bgen n seed] (a linear congruential byte stream both sides compute:
+   x' = (13 x + 7) mod 2^20, byte = bits 7..14 of x'; powers of two only, so that it is cheap on binary integers) *)
 Fixpoint bgen_nat (n : nat) (x : Z) : list Z :=
   match n with
   | O => []
-  | S k => let x' := (x * 1103515245 + 12345) mod 2147483648 in (x' / 65536) mod 256 :: bgen_nat k x'
+  | S k => let x' := Z.land (x * 13 + 7) 1048575 in Z.land (Z.shiftr x' 7) 255 :: bgen_nat k x'
   end.
 Definition bgen (n seed : Z) : list Z := bgen_nat (Z.to_nat n) seed.
 
